@@ -407,6 +407,9 @@ def check(db, rep):
         r5.ok('ParseData-kinds', 'identifiers text, integers int, Pr/pr/Fi index tuples')
 
     # ---------------------------------------------------------------- r6
+    r7 = rep.rule('r7', 'LITERALS-REPRESENTABLE (shared with C06 r9): every literal and index a tree can hold is the number that was written, so the printed text re-parses to the same tree; a number the token data cannot hold is refused by the lexer instead of being wrapped into one that prints differently', 2)
+    from rules import C06
+    C06.token_data_rule(db, r7)
     r6 = rep.rule('r6', 'CONVERT: ConvertTo(text, target) parses the text in the *other* syntax and prints the tree in the target syntax; text that does not parse is returned unchanged', 1)
     cv = db.fn('ccl::rslang::ConvertTo', required=False)
     if cv is None:
